@@ -20,12 +20,16 @@ type resAcc struct {
 	has    func(w *ecs.World) bool
 	remove func(w *ecs.World)
 	id     func(w *ecs.World) ecs.ResID
+	fork   func() resAcc // a by-value copy of a long-lived mapper, taken now (nil for stateless accessors)
 }
 
 // persistent returns accessors bound to ONE generic.Resource[T] mapper that lives as long as the session
 // (a long-lived mapper must keep agreeing with the world when the resource changes through other paths).
 func mkPersistent[T any](w *ecs.World) resAcc {
-	r := generic.NewResource[T](w)
+	return bindResource(generic.NewResource[T](w))
+}
+
+func bindResource[T any](r generic.Resource[T]) resAcc {
 	nilIfNil := func(p *T) any {
 		if p == nil {
 			return nil
@@ -38,6 +42,7 @@ func mkPersistent[T any](w *ecs.World) resAcc {
 		has:    func(_ *ecs.World) bool { return r.Has() },
 		remove: func(_ *ecs.World) { r.Remove() },
 		id:     func(_ *ecs.World) ecs.ResID { return r.ID() },
+		fork:   func() resAcc { return bindResource(r) },
 	}
 }
 
@@ -45,6 +50,8 @@ var resPersistent = map[string]func(w *ecs.World) resAcc{
 	"S0": mkPersistent[G0], "S1": mkPersistent[G1], "S2": mkPersistent[G2], "S3": mkPersistent[G3], "S4": mkPersistent[G4], "S5": mkPersistent[G5],
 	"S6": mkPersistent[G6], "S7": mkPersistent[G7], "S8": mkPersistent[G8], "S9": mkPersistent[G9], "S10": mkPersistent[G10], "S11": mkPersistent[G11],
 	"R0": mkPersistent[RelA], "R1": mkPersistent[RelB],
+	"Q0": mkPersistent[*G0], "Q1": mkPersistent[*G1], "Q2": mkPersistent[**G0], "Q3": mkPersistent[int], "Q4": mkPersistent[[]G0],
+	"Q5": mkPersistent[map[string]int], "Q6": mkPersistent[fmt.Stringer],
 }
 
 func mkRes[T any]() resAcc {
@@ -69,6 +76,8 @@ var resAccs = map[string]resAcc{
 	"S0": mkRes[G0](), "S1": mkRes[G1](), "S2": mkRes[G2](), "S3": mkRes[G3](), "S4": mkRes[G4](), "S5": mkRes[G5](),
 	"S6": mkRes[G6](), "S7": mkRes[G7](), "S8": mkRes[G8](), "S9": mkRes[G9](), "S10": mkRes[G10](), "S11": mkRes[G11](),
 	"R0": mkRes[RelA](), "R1": mkRes[RelB](),
+	"Q0": mkRes[*G0](), "Q1": mkRes[*G1](), "Q2": mkRes[**G0](), "Q3": mkRes[int](), "Q4": mkRes[[]G0](),
+	"Q5": mkRes[map[string]int](), "Q6": mkRes[fmt.Stringer](),
 }
 
 func ptrOf(x any) uintptr {
@@ -117,7 +126,7 @@ func checkResources(s *Sess) bool {
 				s.fail("res.generic.has", "generic.Resource.Has for resource %d = %v, model %v", i, acc.has(w), present)
 				return false
 			}
-			if pm, ok := s.resMappers[s.ResKeys[i]]; ok {
+			for _, pm := range s.resMappers[s.ResKeys[i]] {
 				var g any
 				if p := func() (p any) {
 					defer func() { p = recover() }()
@@ -157,7 +166,7 @@ func caseC20(c *Ctx) {
 	if c.Case%8 == 0 {
 		nRes = limit - c.R.Intn(3)
 	}
-	keys := []string{"S0", "S1", "S2", "S3", "S4", "S5", "S6", "S7", "S8", "S9", "S10", "S11", "R0", "R1"}
+	keys := []string{"S0", "S1", "S2", "S3", "S4", "S5", "S6", "S7", "S8", "S9", "S10", "S11", "R0", "R1", "Q0", "Q1", "Q2", "Q3", "Q4", "Q5", "Q6"}
 	Shuffle(c.R, keys)
 	keys = keys[:c.R.Intn(len(keys)+1)]
 	for i := 0; len(keys) < nRes; i++ {
@@ -168,6 +177,9 @@ func caseC20(c *Ctx) {
 	registered := 0
 	held := []ecs.Query{}
 	steps := 150
+	// how often the resources are looked at: an observation through a long-lived mapper may refresh whatever the
+	// mapper keeps, so some histories change resources several times between two looks
+	every := Pick(c.R, []int{1, 1, 2, 3, 5, 8})
 	if c.Case%8 == 0 && c.Case%16 == 0 {
 		// every resource type of a full registry present at the same time, then Reset
 		for len(keys) < limit {
@@ -221,14 +233,20 @@ func caseC20(c *Ctx) {
 			acc, gen := resAccs[s.ResKeys[id]]
 			s.Cov.Ops["ResAdd"]++
 			if mk, ok := resPersistent[s.ResKeys[id]]; ok && c.R.Chance(0.4) {
-				if _, have := s.resMappers[s.ResKeys[id]]; !have {
+				if have := s.resMappers[s.ResKeys[id]]; len(have) < 3 {
 					if s.resMappers == nil {
-						s.resMappers = map[string]resAcc{}
+						s.resMappers = map[string][]resAcc{}
 					}
-					s.resMappers[s.ResKeys[id]] = mk(s.W)
+					if len(have) > 0 && c.R.Chance(0.5) {
+						s.resMappers[s.ResKeys[id]] = append(have, Pick(c.R, have).fork())
+						s.Cov.N["res_mapper_copies"]++
+					} else {
+						s.resMappers[s.ResKeys[id]] = append(have, mk(s.W))
+					}
 				}
 			}
-			if pm, ok := s.resMappers[s.ResKeys[id]]; ok && c.R.Chance(0.3) {
+			if pms := s.resMappers[s.ResKeys[id]]; len(pms) > 0 && c.R.Chance(0.3) {
+				pm := Pick(c.R, pms)
 				pm.add(s.W, v)
 				s.Res.Present[id] = v
 				s.keep = append(s.keep, v)
@@ -255,8 +273,8 @@ func caseC20(c *Ctx) {
 			sort.Ints(cands)
 			id := Pick(c.R, cands)
 			s.Cov.Ops["ResRemove"]++
-			if pm, ok := s.resMappers[s.ResKeys[id]]; ok && c.R.Chance(0.3) {
-				pm.remove(s.W)
+			if pms := s.resMappers[s.ResKeys[id]]; len(pms) > 0 && c.R.Chance(0.3) {
+				Pick(c.R, pms).remove(s.W)
 			} else if acc, gen := resAccs[s.ResKeys[id]]; gen && c.R.Chance(0.5) {
 				acc.remove(s.W)
 			} else {
@@ -291,6 +309,9 @@ func caseC20(c *Ctx) {
 			_, present := s.Res.Present[id]
 			acc, gen := resAccs[s.ResKeys[id]]
 			useGen := gen && c.R.Chance(0.5)
+			if pms := s.resMappers[s.ResKeys[id]]; len(pms) > 0 && c.R.Chance(0.4) {
+				acc, useGen = Pick(c.R, pms), true
+			}
 			var ok bool
 			if present {
 				v := reflect.New(TypeOfKey(s.ResKeys[id])).Interface()
@@ -320,6 +341,10 @@ func caseC20(c *Ctx) {
 		}
 		if s.Failed() {
 			break
+		}
+		if i%every != 0 && i != steps-1 {
+			s.Cov.N["res_steps_unobserved"]++
+			continue
 		}
 		if !checkResources(s) {
 			break
